@@ -58,6 +58,14 @@ CLAIMED = {
             "Completely enumerated handshake matrix (legacy/new x majors x minors x user data x accept/reject) and gating matrix (negotiated version x gated kinds), plus generated cross-version traffic (calls in both forms, replies, aborts, events, items) with payloads in the sender's epoch: receiver gets the form its version understands, payload meaning preserved, no 1.20 encodings below 1.20.",
             "Version table restated from the changelog; ClientBuilder side covered by the client-level checks.",
             "exhaustive enumeration of small configuration matrices + property-based traffic generation", "5 C12"),
+    "C17": ("schema", "exploration",
+            "Token soups, statement soups, token/character/line mutations of all 83 repository schemas (incl. a systematic operator x file class), generated valid schemas with markdown-adversarial docs, and multi-schema parses with partial import sets; under catch_unwind: parse, render every diagnostic under several renderer settings, format when permitted, a second complete run must give the same diagnostics (sorted multiset), code generation with all option combinations when there are no errors, and a sampled check that the aldrin-gen CLI (built from the current tree) refuses schemas with errors.",
+            "Each case runs under a generated HashMap seed (getrandom shim), so hash-order dependent diagnostics are explored and replay exactly; diagnostics are compared as sorted multisets of rendered strings.",
+            "property-based testing / grammar-based fuzzing with totality + repeatability oracle", "5 C17"),
+    "C18": ("schema", "exploration",
+            "Grammar-directed generator of syntactically valid schemas with arbitrary layout (white space incl. exotic/CRLF, blank lines, comments, docs and attributes wherever the grammar permits, compact vs multi-line bodies, duplicate/unsorted imports, injected semantic errors) plus all repository schemas: format(src) parses without syntax error to the same span-free AST projection (definition order, names, ids, types, attributes, comments, docs; imports as a sorted set), reports the same diagnostics positions aside, and format(format(src)) == format(src) byte for byte.",
+            "The layout printer is derived rule by rule from grammar.pest; a generated source the parser rejects is counted as a generator defect (0 observed), never reported.",
+            "property-based testing: grammar-directed generation, metamorphic (format) + idempotence oracle", "5 C18"),
 }
 
 NOT_YET = {}
@@ -92,6 +100,7 @@ def main():
         },
         "engines": [
             {"name": "codec", "path": "harness/codec", "serves_properties": ["C01", "C07", "C08", "C13", "C14"], "kind_free_text": "proptest-driven tape generators + independent reference codec (refcodec) + differential/round-trip oracles; worker subprocesses with crash attribution"},
+            {"name": "schema", "path": "harness/schema", "serves_properties": ["C16", "C17", "C18", "C20"], "kind_free_text": "tape-driven schema model + layout printer (grammar-directed), parser/formatter/renderer/codegen front end under catch_unwind with deterministic hash seeds"},
             {"name": "bus", "path": "harness/bus", "serves_properties": ["C02", "C03", "C04", "C05", "C09", "C10", "C11", "C12"], "kind_free_text": "simbus (deterministic single-threaded executor + getrandom shim) running the real broker with raw protocol peers, lock-step against busmodel (reference model of the protocol)"},
         ],
         "checks": checks,
